@@ -76,6 +76,21 @@ def check_C09(ctx):
                 for st in itertools.product(lits, repeat=ln):
                     src = '\n'.join('DEFINE PRIO %d %s AS %s END DEFINE' % (pr, ' '.join(pat), ' '.join(body)) for (pr, pat, body) in fam) + '\n' + ' '.join(st)
                     cases.append((fam, list(st), src))
+    # wide macros: 9 to 22 slots, bodies that insert slots with one- and two-digit numbers; use sites with all fillers distinct
+    for k in (9, 10, 11, 12, 13, 21, 22):
+        for _ in range(ctx.n(3, 12)):
+            kinds = [r.choice(['<ID>', '<INT>']) for _ in range(k)]
+            pat = ['w%d' % k] + kinds
+            idx = sorted(set([0, 1, k - 1, min(10, k - 1), min(11, k - 1), min(12, k - 1), min(20, k - 1)] + [r.randrange(k) for _ in range(3)]))
+            r.shuffle(idx)
+            body = []
+            for j in idx:
+                body += ['$%d' % j, ',']
+            inst = ['w%d' % k] + [('v%d' % j if kinds[j] == '<ID>' else str(100 + j)) for j in range(k)]
+            fam = [(1, pat, body[:-1])]
+            stream = ['x', ':='] + inst + [';', 'k']
+            src = 'DEFINE PRIO 1 %s AS %s END DEFINE\n%s' % (' '.join(pat), ' '.join(body[:-1]), ' '.join(stream))
+            cases.append((fam, stream, src))
     for _ in range(ctx.n(300, 3000)):
         macros, stream, src = front.macro_case(r)
         cases.append((macros, stream, src))
